@@ -79,15 +79,16 @@ type Script struct {
 // configuration they run under. DryRun is always on; CompareNormal (ReadOnly)
 // additionally runs the same scripts in normal mode on the same state.
 type Case struct {
-	Mode      string          `json:"mode"`     // direct (sandbox.New) | cobra (`regbot once --dry-run -c file`)
-	Parallel  int             `json:"parallel"` // defaults.parallel (cobra: > 0 runs the scripts concurrently)
-	Verbosity string          `json:"verbosity,omitempty"`
-	YAMLStyle int             `json:"yaml_style,omitempty"` // 0 block scalars, 1 JSON-style quoted strings
-	Graphs    []*imggen.Graph `json:"graphs"`
-	Hosts     []HostConf      `json:"hosts"`
-	Places    []Place         `json:"places"`
-	Scripts   []Script        `json:"scripts"`
-	ReadOnly  bool            `json:"read_only"` // no script calls a mutating binding -> differential clause applies
+	Mode       string          `json:"mode"`     // direct (sandbox.New) | cobra (`regbot once --dry-run -c file`)
+	Parallel   int             `json:"parallel"` // defaults.parallel (cobra: > 0 runs the scripts concurrently)
+	Verbosity  string          `json:"verbosity,omitempty"`
+	YAMLStyle  int             `json:"yaml_style,omitempty"`  // 0 block scalars, 1 JSON-style quoted strings
+	DefTimeout string          `json:"def_timeout,omitempty"` // defaults.timeout ("" = none; always far above any run time)
+	Graphs     []*imggen.Graph `json:"graphs"`
+	Hosts      []HostConf      `json:"hosts"`
+	Places     []Place         `json:"places"`
+	Scripts    []Script        `json:"scripts"`
+	ReadOnly   bool            `json:"read_only"` // no script calls a mutating binding -> differential clause applies
 }
 
 // Prelude is put at the top of every script: j renders a listing
